@@ -2,6 +2,8 @@ package cli
 
 import (
 	"fmt"
+	"os"
+	"path/filepath"
 	"sort"
 	"strings"
 
@@ -31,6 +33,8 @@ type VarsCase struct {
 	// Split > 0: a task "early" is defined after the first Split variables (and uses only
 	// those), the remaining variables and the task "show" follow it.
 	Split int `json:"split,omitempty"`
+	// NamedOut: a variable that the task show also declares as its (named) output
+	NamedOut string `json:"named_out,omitempty"`
 }
 
 var varNames = []string{"AMB_A", "HOME", "LANG", "DOT_B", "BOTH_C", "PLAIN_D", "other", "Mixed_e"}
@@ -49,7 +53,7 @@ var execChoices = []execChoice{
 	{`printf 'in  ner'`, "in  ner"},
 }
 
-var joinSegs = []string{".", "..", "", "a/b/", "dist", "/abs/root", "x", "./y//z", "../up", "out dir", "out", "dir", "a b", "a", "b"}
+var joinSegs = []string{".", "..", "", "a/b/", "dist", "/abs/root", "x", "./y//z", "../up", "out dir", "out", "dir", "a b", "a", "b", "link", "sub", "real", "link/sub"}
 
 func genVars(t *rapid.T) VarsCase {
 	c := VarsCase{Ambient: map[string]string{"AMB_A": "ambient-a", "BOTH_C": "ambient-c"}, DotEnv: map[string]string{"DOT_B": "dotenv-b", "BOTH_C": "dotenv-c"}}
@@ -89,6 +93,9 @@ func genVars(t *rapid.T) VarsCase {
 			VarDef{Name: "ETwo", Kind: "exec", Args: []string{"echo", "hi there"}, Fail: true})
 	}
 	n = len(c.Vars)
+	if n > 0 && rapid.IntRange(0, 2).Draw(t, "named_output") == 2 {
+		c.NamedOut = c.Vars[rapid.IntRange(0, n-1).Draw(t, "which_output")].Name
+	}
 	if n > 0 && rapid.Bool().Draw(t, "interleave") {
 		c.Split = rapid.IntRange(1, n).Draw(t, "split")
 	}
@@ -139,7 +146,11 @@ func (c VarsCase) source() (src string, cmds map[string][2]string) {
 		probes(c.Vars[:c.Split])
 		b.WriteString("    echo early\n}\n")
 	}
-	b.WriteString("\ntask show() {\n")
+	if c.NamedOut != "" {
+		fmt.Fprintf(&b, "\ntask show() -> %s {\n", c.NamedOut)
+	} else {
+		b.WriteString("\ntask show() {\n")
+	}
 	probes(c.Vars)
 	if len(c.Vars) >= 2 {
 		fmt.Fprintf(&b, "    echo 'pre {{.%s}} mid {{.%s}}' post $UNSET_VAR 'lit {{.%s}}'\n", c.Vars[0].Name, c.Vars[1].Name, c.Vars[0].Name)
@@ -153,7 +164,7 @@ func execVars(s *ev.Shard, b *sandbox.Box, c VarsCase) *rp.Fail {
 		return &rp.Fail{Sig: "harness", Msg: err.Error()}
 	}
 	src, _ := c.source()
-	files := map[string]string{"spokfile": src, "nested/dir/": ""}
+	files := map[string]string{"spokfile": src, "nested/dir/": "", "real/sub/": "", "out/dir/": ""}
 	if len(c.DotEnv) > 0 {
 		var keys []string
 		for k := range c.DotEnv {
@@ -169,6 +180,11 @@ func execVars(s *ev.Shard, b *sandbox.Box, c VarsCase) *rp.Fail {
 	if err := writeProject(b, b.Proj, files); err != nil {
 		return &rp.Fail{Sig: "harness", Msg: err.Error()}
 	}
+	// a symbolic link on the way: join() is lexical, it does not resolve links
+	if err := os.Symlink("real", filepath.Join(b.Proj, "link")); err != nil && !os.IsExist(err) {
+		return &rp.Fail{Sig: "harness", Msg: err.Error()}
+	}
+	_ = os.Lchown(filepath.Join(b.Proj, "link"), 65534, 65534)
 	cwd := b.Proj
 	if c.Nested {
 		cwd = b.Proj + "/nested/dir"
@@ -333,6 +349,9 @@ func execVars(s *ev.Shard, b *sandbox.Box, c VarsCase) *rp.Fail {
 		}
 		if c.Split > 0 {
 			s.Class("task_between_variable_definitions")
+		}
+		if c.NamedOut != "" {
+			s.Class("variable_is_also_a_named_output")
 		}
 	}
 	return nil
